@@ -372,7 +372,7 @@ theorem prov_runI {E : Ising} (R : Region) : ∀ (sl : Slots) (s : Sweep) (p : N
     Prov E (runI E R s p sl)
   | [], _, _, h => h
   | none :: t, s, p, h => prov_runI R t s (p + 1) h
-  | some o :: t, s, p, h => prov_runI R t _ (p + 1) (prov_stepI R h p o)
+  | some o :: t, _, p, h => prov_runI R t _ (p + 1) (prov_stepI R h p o)
 
 theorem twoSite_nonneg (j : Rat) (a b : Bool) : 0 ≤ twoSite j a b := by
   unfold twoSite absR
@@ -406,9 +406,6 @@ of a grid step `g ≥ eps/2`, cf. `Qmc.C03.calculateMult_grid`) -/
 def CloseExact (E : Ising) (eps : Rat) : Prop :=
   ∀ st mask, absR ((segOf E st mask).wBef - (segOf E st mask).wAft) < eps →
     (segOf E st mask).wBef = (segOf E st mask).wAft
-
-theorem absR_nonneg (x : Rat) : 0 ≤ absR x := by
-  unfold absR; split <;> linarith
 
 theorem closeExact_of_nonpos (E : Ising) {eps : Rat} (h : eps ≤ 0) : CloseExact E eps := by
   intro st mask hlt
@@ -483,5 +480,55 @@ theorem admissible_of_good {E : Ising} {c : Config} {R : Region} {eps : Rat} (hg
     apply hw
     show prodR (sC.inner.map (·.1)) * useBef sC.segs sC.asg = 0
     rw [h0, mul_zero]
+
+/-! ### `CloseExact` for couplings on a grid -/
+
+theorem twoSite_grid (g : Rat) (k : Int) (a b : Bool) : ∃ m : Int, twoSite ((k : Rat) * g) a b = (m : Rat) * (2 * g) := by
+  unfold twoSite absR
+  split
+  · split
+    · exact ⟨-k, by push_cast; ring⟩
+    · exact ⟨0, by push_cast; ring⟩
+  · split
+    · exact ⟨0, by push_cast; ring⟩
+    · exact ⟨k, by ring⟩
+
+theorem sum_grid (G : Rat) : ∀ l : List Rat, (∀ x ∈ l, ∃ m : Int, x = (m : Rat) * G) →
+    ∃ M : Int, l.sum = (M : Rat) * G
+  | [], _ => ⟨0, by simp⟩
+  | x :: t, h => by
+    obtain ⟨m, hm⟩ := h x (by simp)
+    obtain ⟨M, hM⟩ := sum_grid G t (fun y hy => h y (List.mem_cons_of_mem _ hy))
+    exact ⟨m + M, by rw [List.sum_cons, hm, hM]; push_cast; ring⟩
+
+/-- **`CloseExact` holds when all couplings are integer multiples of a step `g` with `eps ≤ 2g`** —
+in particular for dyadic couplings `k/8`, `k/16`, … against the code's `eps = 2⁻⁵²` -/
+theorem closeExact_of_grid (E : Ising) (g eps : Rat) (hg : eps ≤ 2 * g)
+    (hJ : ∀ e ∈ E.edges, ∃ k : Int, e.2.2 = (k : Rat) * g) : CloseExact E eps := by
+  intro st mask
+  have hentry : ∀ x ∈ boundary E st mask, (∃ m : Int, x.2.1 = (m : Rat) * (2 * g)) ∧
+      ∃ m : Int, x.2.2 = (m : Rat) * (2 * g) := by
+    rintro ⟨b, wb, wa⟩ hx
+    obtain ⟨u, v, j, he, -, h1, h2⟩ := mem_boundary hx
+    obtain ⟨k, hk⟩ := hJ (u, v, j) (List.mem_of_getElem? he)
+    simp only at hk ⊢
+    rw [h1, h2, hk]
+    exact ⟨twoSite_grid g k _ _, twoSite_grid g k _ _⟩
+  obtain ⟨B, hB⟩ : ∃ B : Int, (segOf E st mask).wBef = (B : Rat) * (2 * g) := by
+    unfold Seg.wBef segOf
+    apply sum_grid
+    intro x hx
+    simp only [List.map_map, List.mem_map, Function.comp] at hx
+    obtain ⟨y, hy, rfl⟩ := hx
+    exact (hentry y hy).1
+  obtain ⟨A, hA⟩ : ∃ A : Int, (segOf E st mask).wAft = (A : Rat) * (2 * g) := by
+    unfold Seg.wAft segOf
+    apply sum_grid
+    intro x hx
+    simp only [List.map_map, List.mem_map, Function.comp] at hx
+    obtain ⟨y, hy, rfl⟩ := hx
+    exact (hentry y hy).2
+  rw [hB, hA]
+  exact close_exact_on_grid (2 * g) eps B A hg
 
 end Qmc.Rvb.Kernel
